@@ -486,6 +486,7 @@ void ClipperOffset::DoGroupOffset(Group& group)
 		Path64::size_type pathLen = path_in_it->size();
 		path_out.clear();
 		end_type_ = group.end_type; // may have been changed for the previous path
+		if (pathLen == 0) continue; // nothing to offset (and nothing to index)
 
 		if (pathLen == 1) // single point
 		{
